@@ -199,6 +199,20 @@ def handle (op : String) (payload : Str) (args : List String) : String :=
     match buildMasterScript payload with
     | some r => masterOp r true
     | none => "bad-op"
+  else if op == "cmp_build_media" then
+    -- two builder scripts: the model's `=` is structural (what `#[derive(PartialEq)]` is), on playlists and on segment lists
+    match args with
+    | [b] =>
+      match hexToStr? b with
+      | none => "bad-op"
+      | some pb =>
+        match buildMediaScript payload, buildMediaScript pb with
+        | some (.ok x), some (.ok y) =>
+          "ok " ++ Obs.media x ++ " " ++ Obs.media y ++ " E:" ++ Obs.bool (decide (x = y)) ++ " X:" ++ Obs.bool (decide (x.segments = y.segments))
+        | none, _ => "bad-op"
+        | _, none => "bad-op"
+        | _, _ => "err"
+    | _ => "bad-op"
   else if op.startsWith "type:" then (typeDispatch (op.drop 5).toString payload).getD "bad-op"
   else if op.startsWith "tag:" then (tagDispatch (op.drop 4).toString payload).getD "bad-op"
   else if op.startsWith "owned:" then
